@@ -175,17 +175,38 @@ class C04(PropCheck):
                     qlist.append({"outer": None, "inner": i, "limit": l})
                     if fr != spec(None, i, l):
                         probs.append(f"extract_until({i}, limit={l}) gave {fr}, expected {spec(None, i, l)}")
-                # frame-valued limit: reachable by f_back only
-                f = full[i].f_back
+                # frame-valued limit: reachable by f_back only, in zero or more steps (limit=inner is the one-frame slice)
+                f = full[i]
                 while f is not None and id(f) in idx:
                     lo = idx[id(f)]
-                    st = stackscope.extract_until(full[i], limit=f, with_contexts=False)
+                    try:
+                        st = stackscope.extract_until(full[i], limit=f, with_contexts=False)
+                    except Exception as e:
+                        probs.append(f"extract_until({i}, limit=frame {lo}) raised {type(e).__name__}: {e}")
+                        f = f.f_back
+                        continue
                     s, fr = show(st)
                     res.append(s)
                     qlist.append({"outer": lo, "inner": i, "limit": None})
                     if fr != spec(lo, i, None):
                         probs.append(f"extract_until({i}, limit=frame {lo}) gave {fr}, expected {spec(lo, i, None)}")
                     f = f.f_back
+            # callers living in modules whose name merely resembles stackscope's: their frames are the user's, not the library's
+            for modname in ("stackscope_contrib.dump", "stackscopex", "contrib_for_stackscope"):
+                ns = {"__name__": modname}
+                exec("def call(fn, *a, **k):\n    return fn(*a, **k)\n", ns)
+                for o in (None, first_mine):
+                    st = ns["call"](stackscope.extract_since, None if o is None else full[o], with_contexts=False)
+                    _, fr = show(st)
+                    names = [f.funcname for f in st.frames]
+                    want = spec(o, None, None) + [-1]
+                    if fr != want or names[-1:] != ["call"]:
+                        probs.append(f"extract_since({o}) called from module {modname!r} gave {fr} (innermost {names[-1:]}), expected {want} "
+                                     f"ending in the caller's own frame")
+                st = ns["call"](stackscope.extract, StackSlice(limit=2), with_contexts=False)
+                names = [f.funcname for f in st.frames]
+                if names[-1:] != ["call"] or len(names) != 2:
+                    probs.append(f"StackSlice(limit=2) from module {modname!r} gave {names}, expected the caller `call` and its caller")
             return res
 
         res = run_scenario(case["levels"], queries)
